@@ -74,6 +74,12 @@ def gen_input(r, quick):
                 if f["kind"] == "so" and r.chance(1, 2):
                     continue
                 f["entries"].append(("U", n, r.chance(1, 3)))
+    # names nobody defines, referenced weakly / non-weakly from several files in either order
+    if r.chance(1, 3):
+        n = 200
+        refs = [k for k, f in enumerate(files) if f["kind"] != "so" and r.chance(1, 2)] or [0]
+        for k in refs:
+            files[k]["entries"].append(("U", n, r.chance(1, 2)))
     # archive members are only interesting if something may pull them: give each a unique name sometimes referenced from file 0
     for k, f in enumerate(files):
         if f["kind"] == "ar" and r.chance(2, 3):
